@@ -95,7 +95,7 @@ class XMLEntityEscaper:
     __characterrefs = re.compile(
         r"""& (?:
                                           \#(\d+)
-                                          | \#x([\da-f]+)
+                                          | \#x([\da-fA-F]+)
                                           | ( (?!\d) [:\w] [-.:\w]+ )
                                           ) ;""",
         re.X | re.UNICODE,
